@@ -631,7 +631,7 @@ func c01R6(c *Ctx, live map[*ssa.Function]bool) {
 			c.Undecided("C01.R6", "transport.SessionState."+fname, "field not found")
 			continue
 		}
-		ws := P.FieldWrites(f)
+		ws := P.HoistWrites(P.FieldWrites(f), func(fn *ssa.Function) bool { return allowed[FuncName(fn)] })
 		for _, w := range ws {
 			c.Check(allowed[FuncName(w.Fn)], "C01.R6", "write:SessionState."+fname+"@"+FuncName(w.Fn), P.InstrPos(w.Instr),
 				"written by the handshake finisher", "SessionState."+fname+" is written outside finishHandshake / clientHandshakeLocked: a session could become usable before authentication completes")
